@@ -253,6 +253,9 @@ sprh('ArtFile_ReadAnimations', ['C10', 'C11'], reach=EXC2, replace=RA_R, trusted
 G('sprh.ArtFile_ReadAnimations.content', ['C10', 'C11'], 'sprh', 'ArtFile_ReadAnimations', reach=EXC2, replace=RA_R, trusted=RA_T + ['generated pointer checks are OFF in this group (decided by sprh.ArtFile_ReadAnimations on the same extracted body)'],
   flags=['--object-bits', '12'], timeout=600, no_standard_checks=True, what='the count verification receives exactly the totals the section header announces; the table has the announced number of entries')
 sprh('ArtFile_ValidateImageMetadata', ['C10', 'C11'], reach=EXC2)
+sprh('ArtFile_Read', ['C10', 'C11'], reach=EXC2, replace=['ArtFile_ReadPalette_U', 'ArtFile_ReadImageMetadata_U', 'ArtFile_ReadAnimations_U'], timeout=300,
+     trusted=[KR_TRUST, 'the three section readers by use-mode framing contracts (ghost step counter); ReadPalette is not decided; ArtFile default construction (vectors) is outside the extractor'],
+     what='PRT reader pipeline: palettes, image table (validated against those palettes), animations (totals verified), in this order on every normal return')
 # ---- U-SPRA (one animation record, real Animation struct)
 SPRA_T = ['ReadFrame / WriteFrame by the contracts proved in unit sprh (use mode, projected); the layer vector of a frame by the assumed vector model; vector<Frame>::resize and the size-prefixed read / write of the unknown container as assumed framing contracts']
 G('spra.ArtFile_ReadAnimation', ['C10', 'C11'], 'spra', 'ArtFile_ReadAnimation', reach=EXC2, replace=['Rd_Read', 'Rd_ReadU32T', 'vec_Frame_resize', 'ArtFile_ReadFrame', 'Reader_ReadSized_u32_vec_UnknownContainer'], trusted=[KR_TRUST] + SPRA_T,
@@ -281,17 +284,17 @@ claim('C08', 'Bitmap geometry proved over the full 32-bit domain against an inde
       'NOT decided: the 4- and 5-argument CreateIndexed overloads, pixel content through write + read, flips of more than 3 rows (and hence "twice restores the original" beyond that). ASSUMED: vector resize / construction / reserve / insert(end(), first, last), BitmapFile default constructor.')
 claim('C09', 'Custom tileset header constants and validators proved against an independent description of the format (PBMP / head 0x14, tag count 2, width 32, depth 8, flags 8 / PPAL 1048, head 4, tag count 1 / data 1024 / data 32*h): TilesetHeader::Create/Validate, PpalHeader::Create/Validate, the three section validators, CalculatePixelHeaderLength, CalculatePbmpSectionSize, ValidateTileset (8 bit, width 32, height multiple of 32 in either orientation); Peek proved not to move the position (K_R); PeekIsCustomTileset proved to leave the stream where it stands at ANY position and to answer exactly "next four bytes are PBMP"; WriteCustomTileset proved against the format description (total length; PBMP length, pixel height and pixel-section length byte by byte; palette entry gi with red/blue exchanged; non-tilesets refused with nothing written); SwapPaletteRedAndBlue proved for every entry of a palette of any length; ReadCustomTileset proved on arbitrary bytes: memory safe, no undefined arithmetic (after fix D20), short inputs refused, exact consumption 1096 + |pixels|, result 8 bit / 32 wide / height a multiple of 32 / 256 colours / 32*|height| pixel bytes.',
       'ASSUMED: BitmapFile::InvertScanLines (negates height, same pixel count), BitmapFile::SwapRedAndBlue (frame). NOT decided: pixel and palette CONTENT through read and write (the picture round trip), orientation of the loaded picture for headers announcing more than 2^31 rows, tilesets of more than 2^27 - 64 rows (4 GiB; the 32-bit length fields wrap and the writer does not refuse). One trusted constant: PBMP section length 1068 + 32*h cannot be confirmed against the game offline.')
-claim('C10', 'PRT cross-field rule check (ValidateImageMetadata: scan line = width rounded up to 4, palette index names an existing palette) proved with a loop contract for any number of images; canonical palette header (PPAL 1048 / head 4 / 1 / data 1024) and its validator proved; SectionHeader constructors/validator proved; ReadFrame / WriteFrame proved against the frame grammar for every flag combination and count; ReadAnimations proved memory safe on arbitrary bytes and to run the count verification on EVERY normal return with exactly the totals the section header announces (also for files without animations); ArtFile::Write proved to validate the image table BEFORE anything is written and to emit palettes, the size-prefixed image table and the animation section in the order the reader consumes them; WriteAnimations proved to start the section with the animation count and the three CountFrames totals (the words the reader re-computes and compares) and to refuse counts above 2^32 - 1.',
-      'ASSUMED: ReadAnimation, WriteAnimation, WritePalettes, VerifyCountsMatchHeader / CountFrames, vector resize (abstract contracts; Animation is an opaque placeholder in the unit). NOT decided: CountFrames arithmetic, palette channel swap on read/write, structure round trip.')
-claim('C11', 'Validators that guard the loaders are proved total and exact (every header validator throws iff a checked field deviates; image index check refuses index >= count; pixel-size check refuses negative width / INT32_MIN height); all with CBMC memory-safety and arithmetic checks on. Loader bodies proved on arbitrary bytes: ReadCustomTileset (safe, exact consumption, result satisfies the tileset invariant; found and fixed D20: abs(INT32_MIN) reachable from a 1096-byte file), BitmapFile::ReadIndexed and its four steps (result satisfies I_B), PeekIsCustomTileset, ArtFile::ReadFrame, ArtFile::ReadAnimations, BitmapFile::CreateIndexed for every height.',
-      'NOT decided: ArtFile::ReadPalette / ReadImageMetadata / ReadAnimation bodies, SpriteLoader::ExtractImage (shared_ptr / chained temporaries: outside the extractor), follow-up operations InvertScanLines / WriteIndexed on loaded objects; resource exhaustion.')
+claim('C10', 'PRT cross-field rule check (ValidateImageMetadata: scan line = width rounded up to 4, palette index names an existing palette) proved with a loop contract for any number of images; canonical palette header (PPAL 1048 / head 4 / 1 / data 1024) and its validator proved; SectionHeader constructors/validator proved; ReadFrame / WriteFrame proved against the frame grammar for every flag combination and count; ReadAnimations proved memory safe on arbitrary bytes and to run the count verification on EVERY normal return with exactly the totals the section header announces (also for files without animations); ArtFile::Write proved to validate the image table BEFORE anything is written and to emit palettes, the size-prefixed image table and the animation section in the order the reader consumes them; WriteAnimations proved to start the section with the animation count and the three CountFrames totals (the words the reader re-computes and compares) and to refuse counts above 2^32 - 1. Record level (unit spra, REAL Animation struct): ReadAnimation proved memory safe on arbitrary bytes, frame table with exactly the announced number of entries, the two unknown words as in the file, stream valid; WriteAnimation proved to start with the fixed part and the little-endian frame count, to refuse frame tables / unknown containers above 2^32 - 1, never to alter earlier output, with its length bounded by 40 + 1024 * frames + 16 * container. VerifyCountsMatchHeader proved to accept iff all three totals CountFrames computes equal the totals handed in; ReadImageMetadata proved to validate the table it has just read on every normal return (validation before the read, or skipped, is refuted); ArtFile::Read(Reader&) proved to run palettes -> image table -> animations in this order, a normal return having validated the image table against the palettes already read and verified the animation totals.',
+      'ASSUMED: WritePalettes, CountFrames (totals are ghosts), vector resize, size-prefixed read/write of vector<ImageMeta> / vector<UnknownContainer> (framing contracts); the record-level contracts of ReadAnimation / WriteAnimation are proved in unit spra and bound by inspection to the opaque placeholder used in unit sprh. NOT decided: CountFrames arithmetic, palette channel swap on read/write (ReadPalette: two attempts, see DESIGN 11.2), structure round trip.')
+claim('C11', 'Validators that guard the loaders are proved total and exact (every header validator throws iff a checked field deviates; image index check refuses index >= count; pixel-size check refuses negative width / INT32_MIN height); all with CBMC memory-safety and arithmetic checks on. Loader bodies proved on arbitrary bytes: ReadCustomTileset (safe, exact consumption, result satisfies the tileset invariant; found and fixed D20: abs(INT32_MIN) reachable from a 1096-byte file), BitmapFile::ReadIndexed and its four steps (result satisfies I_B), PeekIsCustomTileset, ArtFile::ReadFrame, ArtFile::ReadAnimation (real Animation struct, unit spra), ArtFile::ReadAnimations, ArtFile::ReadImageMetadata (validation of the table just read on every normal return), ArtFile::VerifyCountsMatchHeader (exact), the ArtFile::Read pipeline order, BitmapFile::CreateIndexed for every height.',
+      'NOT decided: ArtFile::ReadPalette body (two attempts, DESIGN 11.2), SpriteLoader::ExtractImage (shared_ptr / chained temporaries: outside the extractor), follow-up operations InvertScanLines / WriteIndexed on loaded objects; resource exhaustion.')
 claim('C18', 'Two-run relational checks (uninitialised storage is independent nondeterministic data in each run) prove that every byte of each record built by the record constructors is determined by the arguments: MapHeader, Map (all serialised members incl. clipRect), ImageHeader::Create, BmpHeader::Create, SectionHeader, TilesetHeader::Create, PpalHeader::Create, PaletteHeader::CreatePaletteHeader.',
       'NOT decided yet: VOL/CLM record constructors, partially-assigning parsers (ReadFrame, ReadTilesetSources), writers byte-exact postconditions; input order / path spelling (std::sort, std::filesystem).')
 NOT_DECIDED.update({
  'C08': ['CreateIndexed 4/5-argument overloads, pixel content through write + read', 'InvertScanLines / WritePixels / WriteIndexed: bounded (<= 3 rows)'],
  'C09': ['pixel/palette content through read and write (picture round trip)', 'tilesets above 2^27 - 64 rows', 'PBMP length constant vs the game (trusted)'],
- 'C10': ['CountFrames arithmetic, palette swap on read/write, structure round trip'],
- 'C11': ['ArtFile ReadPalette/ReadImageMetadata/ReadAnimation bodies, SpriteLoader::ExtractImage', 'follow-up operations on loaded objects; resource exhaustion'],
+ 'C10': ['CountFrames arithmetic, palette swap on read/write (ReadPalette, WritePalettes), structure round trip'],
+ 'C11': ['ArtFile::ReadPalette body, SpriteLoader::ExtractImage', 'follow-up operations on loaded objects; resource exhaustion'],
  'C12': ['typed container/string helpers of Reader.h (Read(container&), Read<SizeType>, ReadNullTerminatedString)', 'FileReader against the std::ifstream model'],
  'C13': ['independence of two OS file descriptions (assumed)', 'archive member streams'],
  'C14': ['DynamicMemoryWriter, Write<SizeType>, Write(Reader&) copy loop, FileWriter::TranslateFlags'],
@@ -453,7 +456,7 @@ sprh('ArtFile_ReadFrame', ['C10', 'C11', 'C18'], reach=EXC2, replace=RD + ['vec_
 G('clm.PrepareIndex.bounded', ['C20', 'C03'], 'clm', None, harness='h_clm_prepareindex_bounded', defines=['OP2_CLMN=3'], loop_contracts=False, reach=EXC2, replace=['op2_strncpy'],
   flags=['--unwind', '6', '--unwinding-assertions'], timeout=600, bounded='member count n <= 3 (data lengths fully symbolic)',
   what='bounded stand-in: PrepareIndex vs the CLM layout in 128-bit arithmetic: refuses iff an offset does not fit 32 bits, else offsets equal the description')
-claim('C20', 'Proved: size-prefixed writes (uint8/16/32 and int8/16 prefixes) refuse a container that does not fit the prefix and otherwise write prefix then data; WriteContainerSize refuses sizes above 2^32-1; CreateHeader refuses a tileset count above 32 bits and a non-power-of-two width; WriteFrame refuses a layer list that disagrees with its 7-bit count (all counts, all flag combinations). Bounded stand-ins (labelled bounded, not proof): VolFile::PrepareHeader and ClmFile::PrepareIndex for <= 3 members with fully symbolic 64-bit sizes against the layout in 128-bit arithmetic: refused iff a size or accumulated offset does not fit its field.',
+claim('C20', 'Proved: size-prefixed writes (uint8/16/32 and int8/16 prefixes) refuse a container that does not fit the prefix and otherwise write prefix then data; WriteContainerSize refuses sizes above 2^32-1; CreateHeader refuses a tileset count above 32 bits and a non-power-of-two width; WriteFrame refuses a layer list that disagrees with its 7-bit count (all counts, all flag combinations); WriteAnimation refuses a frame table or unknown container above 2^32 - 1 entries. Bounded stand-ins (labelled bounded, not proof): VolFile::PrepareHeader and ClmFile::PrepareIndex for <= 3 members with fully symbolic 64-bit sizes against the layout in 128-bit arithmetic: refused iff a size or accumulated offset does not fit its field.',
       'The VOL/CLM accumulated-offset clauses are bounded in the member count (n <= 3), not in the sizes. Refusal before creation of the destination: proved for VolFile::CreateArchive / WriteVolume and ClmFile::CreateArchive at the level of the pipeline order (every refusing step precedes the only step that constructs the FileWriter; the steps themselves by use-mode framing contracts, std::sort / vector plumbing assumed); CLM stored names longer than 8 characters are refused before WriteArchive (arbitrary index). ArtFile animation / frame / layer totals above 2^32 - 1 are refused by WriteAnimations (totals themselves: CountFrames, assumed).')
 claim('C07', 'For ARBITRARY input bytes over any K_R stream ReadMapBeginning is proved to either throw or return a map whose width is a power of two and whose tile array has exactly height << log2(width) entries (no over-wide shift, no wrapped product, every short read refused), consuming at least the 46 fixed bytes; MapHeader::WidthInTiles/TileCount proved for every exponent <= 31; ReadVersionTag, ReadTilesetHeader, ReadTileGroup, SkipSaveGameHeader proved safe with their exact consumption or refusal; ReadSavedGameUnits proved memory safe on arbitrary bytes and to consume exactly the bytes the layout defines (both object tables sized by their own counts, free-unit table iff first != next free slot; wrong unit size and short input refused); ReadTileGroups proved memory safe and terminating on arbitrary bytes; the pipelines ReadMap (beginning, tag, tag, tile groups) and ReadSavedGame (0x1E025 bytes skipped, the same beginning, tag, unit section, tag) proved to run their steps in exactly that order, to compare both version tags with the tag of the map just read, and to consume the sum of the steps\' lengths - so a saved game embeds exactly the section sequence a map file starts with.',
       'ASSUMED abstract contracts: vector resize, Read<uint32_t>(container), ReadTilesetSources. The pipeline steps are bound to use-mode framing contracts (ghost step counter, ghost lengths). NOT decided: field-level equality of the map yielded by a saved game and by the embedded map file, resource exhaustion.')
